@@ -77,6 +77,21 @@ func fixUCDAOTotalBalance(ctx sdk.Context, dk ucdaokeeper.Keeper, ucDaoStoreKey 
 	if err != nil {
 		return err
 	}
+
+	// The repair is meant for a ledger whose recorded total is exactly that amount above the sum of the
+	// holders' shares. A ledger that is consistent (any other chain) must be left as it is: subtracting
+	// from it would break the equality it has, or fail on a total below the amount.
+	shares := sdk.ZeroInt()
+	dk.IterateAllBalances(ctx, func(_ sdk.AccAddress, coin sdk.Coin) bool {
+		if coin.Denom == utils.BaseDenom {
+			shares = shares.Add(coin.Amount)
+		}
+		return false
+	})
+	if !balISLM.Amount.Sub(amt.Amount).Equal(shares) {
+		logger.Info(fmt.Sprintf("UC DAO total ISLM balance is not %s above the holders' shares (%s), left as is", amt.String(), shares.String()))
+		return nil
+	}
 	balISLM = balISLM.Sub(amt)
 
 	intBytes, err := balISLM.Amount.Marshal()
